@@ -116,7 +116,7 @@ def r2_grid(ctx, repo):
             detail = "levels generated over range(%s), not range(k)" % ", ".join(text(x) for x in rb if x is not None)
     ctx.check3(ok_levels, "R2", C, where(cls.module, pl), detail, detail, detail, key="levels")
     # full Cartesian product of the columns, every combination once
-    rts = [t for _, t in T.returns if t is not None]
+    rts = [T.expand(st_.value, at=st_, skip=(cols,) if cols else ()) for st_, t in T.returns if t is not None]
     state = None
     why = "returned value not recognised as the list of all combinations"
     if len(rts) == 1 and cols is not None:
@@ -130,7 +130,11 @@ def r2_grid(ctx, repo):
                 state = False
                 why = "the columns are combined with %s: only the diagonal of the grid (one design per level index) is produced, not all combinations" % text(it)
             if is_prod:
-                okp = len(it.args) == 1 and isinstance(it.args[0], ast.Starred) and access_path(it.args[0].value) == cols and not it.keywords
+                cols_term = T.final[0].get(cols) if T.final and T.final[0] else None
+                for st_, _t in T.returns:
+                    cols_term = T.before.get(id(st_), ({}, set()))[0].get(cols, cols_term)
+                okp = len(it.args) == 1 and isinstance(it.args[0], ast.Starred) and not it.keywords and (
+                    access_path(it.args[0].value) == cols or (cols_term is not None and text(it.args[0].value) == text(cols_term)))
                 one_each = not g.ifs and text(rt.elt) in ("list(%s)" % v, v, "[*%s]" % v)
                 state = bool(fresh and okp and one_each)
                 why = "the result is not the full Cartesian product of the per-parameter level columns (fresh column per parameter=%s, product(*columns)=%s, every combination once=%s)" % (fresh, okp, one_each)
